@@ -244,13 +244,23 @@ func (a *AttWatcher) OracleC11(br *world.BlockResult) []*core.Violation {
 		if len(cur.Votes) == prevVotes {
 			continue
 		}
-		hash, _ := cur.Claim.ClaimHash()
 		for _, v := range distinct(cur.Votes) {
-			// the latest accepted vote of v for this (chain, nonce, hash)
+			// what v submitted for this event nonce: a validator has one accepted claim per nonce (its latest, if the cursor
+			// was reset in between). The oracle does not rely on the chain's claim hash to pair votes with attestations -
+			// that hash is the mechanism under test. A validator listed on several attestations of the nonce (possible
+			// after a reset) is compared on the one whose stored claim equals its submission, if there is one.
 			var sub skywaytypes.EthereumClaim
 			for _, vr := range a.Votes {
-				if vr.val == v && vr.chain == cur.Chain && vr.nonce == cur.Nonce && vr.hash == string(hash) {
+				if vr.val == v && vr.chain == cur.Chain && vr.nonce == cur.Nonce {
 					sub = vr.claim
+				}
+			}
+			if sub != nil && len(claimDiff(cur.Claim, sub)) > 0 {
+				// an earlier submission of v for this nonce that does equal the stored claim explains the vote
+				for _, vr := range a.Votes {
+					if vr.val == v && vr.chain == cur.Chain && vr.nonce == cur.Nonce && len(claimDiff(cur.Claim, vr.claim)) == 0 {
+						sub = vr.claim
+					}
 				}
 			}
 			if sub == nil {
